@@ -12,136 +12,81 @@ Definition show_fres (r : fres) : string :=
   end.
 Definition check (rs : list rune) : string := digest (show_fres (format_res rs)).
 Definition full (rs : list rune) : string := show_fres (format_res rs).
-Eval vm_compute in ("<<<M1528>>>" ++ check (runes_of_ascii "options
-    {	BodyLength  =
-char[	7  ]	;
-
+Eval vm_compute in ("<<<M1542>>>" ++ check (runes_of_ascii "root packet u {
+    match crc as leftPad {
+        [00] : o,
+        42 : crc,
+        [
+            ""a	b"", ""CRC32"", ""a\""b"", ""\n"", 0,
+            255
+        ] : zchar,
+        // " ++ [128512]%N ++ runes_of_ascii " emoji
+        //
+    },
+    string stringy @lengthOf(matchKey),
+    int,
+    @tag(1)
+    repeat zchar[4294967296] roots,
+    @leftPad('\x00')
+    x @lengthOf(crc),
 }
-        // c
 
-// @lengthOf(
-packet  asx// " ++ [128512]%N ++ runes_of_ascii " emoji
-
-  {int16 x_y_z
-    ,@calculatedFrom(""""
-	) @lengthOf( 
-    /// triple
-  	chars
-
-)//
-  	repeat
-    repeatCount
-charz
-
-    /// triple
-// " ++ [27880; 37322]%N ++ runes_of_ascii "
-
-  ,
-@leftPad
-	(
-	)i64_
-	@calculatedFrom(""\" ++ [233]%N ++ runes_of_ascii """)
-
-`// not a comment`
-
-    ,tag  Z9_
-`two words`
-
-, @lengthOf( asx )  @calculatedFrom(	""`tick`""
-)
-    match	uint8x
-	as 
-matchKey { 0123456789
-	// packet A { u8 x, }
-	// a // b
-:  u8x
-
-    ,
-    1	:
-zchar  ,
+packet repeatCount {
+    zchar[255] f32a @calculatedFrom(""x y""),
+    @tag(255)
+    char[] asx @calculatedFrom(""" ++ [28040; 24687]%N ++ runes_of_ascii """),
+    leftPad {
+        /// triple
+        // a // b
+        repeat int u8x,
+        i64 trueish @lengthOf(i8i8) `" ++ [28040; 24687; 31867; 22411]%N ++ runes_of_ascii "`,
+        repeat int64 pack,
+    },
+    match float as o {
+        //
+        65535 : Pad,
+        [""" ++ [128512]%N ++ runes_of_ascii """, """ ++ [28040; 24687]%N ++ runes_of_ascii """, 0123456789] : i8i8,
+        7 : asx,
+        00 : stringy,
+    },
+    @calculatedFrom(""" ++ [233]%N ++ runes_of_ascii "t" ++ [233]%N ++ runes_of_ascii """)
+    f32a u,
+    repeat msg_type `" ++ [233]%N ++ runes_of_ascii "`,
+    repeat zchar[42] crc,
+    uint64 lengthOf,
+    repeat As ``,
+    zchar[007] tag `tab	here`,
 }
-,
 
-u128	@lengthOf(
+root packet charz {
+    string msg_type,
+    @calculatedFrom("""")
+    repeat string tag `tab	here`,
+    repeat calculatedFrom,
+    repeat Foo,
+    uint64 Foo @lengthOf(packetx),
+    @rightPad()
+    match falsey as calculatedFrom {
+        [0, 10, ""a\""b""] : metadata,
+    },
+    @calculatedFrom(""\" ++ [233]%N ++ runes_of_ascii """)
+    i64 As ``,
+    @lengthOf(rootA)
+    u32 Logon @lengthOf(a1),
+    @calculatedFrom("""")
+    @leftPad(' ')
+    uint16 i8i8 @calculatedFrom(""// no comment""),
+}
 
-u128 	 // packet A { u8 x, }
-	) 	 // " ++ [128512]%N ++ runes_of_ascii " emoji
-,  } MetaData
-	msg_type { 
-string  BodyLength
-`two words`,
-	options1	// " ++ [128512]%N ++ runes_of_ascii " emoji
-  i64_ , } 	 // " ++ [128512]%N ++ runes_of_ascii " emoji
-  packet 
-roots {
+root packet uint8x {
+    repeat f32 chars `tab	here`,
+}
 
-    u ``
-    ,  @calculatedFrom( ""a	b"" )
-
-match
-len
-as msg_type	{ 
-// c
-    """ ++ [28040; 24687]%N ++ runes_of_ascii """ : charz} , crc
-    @calculatedFrom( 
-	    // packet A { u8 x, }
-  // packet A { u8 x, }
-  ""it's"" 
-)`a\`	, 
-@leftPad  (
-'0' ) 
-@tag(
-007)zchar[  // trailing space 
-    3
-	    // trailing space 
-
-	]falsey
-
-,  @calculatedFrom( // `tick` ""quote"" 'q'
-
-	""\n""
-) @calculatedFrom(
-    ""CRC32""  // c
-) 
-        // trailing space 
-match 
-    //x
-  	Packet as // @lengthOf(
-	stringy {
-
-    1 :	Pad	,""it's""
-:
-    f32a	, },	@leftPad
-(' ')
-    match// " ++ [27880; 37322]%N ++ runes_of_ascii "
-int
-	as
-	a1 {
-
-    [
-
-    0123456789 , 255
-
-]
-
-:
-
-    options1 
-	//x
-
-  //x
-	  }
-    ,  BodyLength 
-//
-
-	@calculatedFrom(
-	""" ++ [28040; 24687]%N ++ runes_of_ascii """),float32 zchar@calculatedFrom(  ""// no comment"" )  ,  @tag(	10 )
-zchar[ 
-
-    // packet A { u8 x, }
-  1 ] 
-rootA ,
-} ")).
+MetaData calculatedFrom {
+    //
+    // `tick` ""quote"" 'q'
+    metadata crc,
+}")).
 Eval vm_compute in ("<<<M324>>>" ++ check (runes_of_ascii "MetaData Pad { char[] Packet , f32a i64_
     `tab	here`
 // c
@@ -211,59 +156,89 @@ len )repeat zchar[	00
 MetaData  metadata {
 u8 body
 , }")).
-Eval vm_compute in ("<<<M1877>>>" ++ check (runes_of_ascii "packet x {
-    //x
-    lengthOf @calculatedFrom(""abc"") `u8 x,`,
-    @rightPad()
-    //x
-    // @lengthOf(
-    float32 Packet @lengthOf(falsey),
-    char[10] falsey,
-    @tag(3)
-    repeat zchar[4294967296] repeatCount,
-    repeatCount `say ""hi""`,
-    int16 u128,
-    char[3] crc @calculatedFrom(""x y""),// trailing space 
-    @leftPad('\x00')
-    match chars as i8i8 {
-        42 : charz,
-    },
+Eval vm_compute in ("<<<M1373>>>" ++ check (runes_of_ascii "options { // c1a
+  // c1b
+LittleEndian // c2
+= // c3
+true ;
+    // c5
+StringPrefixLenType = // c7
+u64 ;
+    // c9
+ArrayPrefixLenType = u16 ; // c13a
+  // c13b
+FixedStringPadFromLeft =
+    // c15
+false // c16
+; FixedStringPadChar // c18
+=
+    // c19
+' ' // c20a
+  // c20b
+;
+    // c21
+} packet
+    // c23
+Logon { // c25
+zchar[ // c26a
+  // c26b
+5 // c27a
+  // c27b
+] // c28a
+  // c28b
+Side2 // c29a
+  // c29b
+, // c30
+} root // c32a
+  // c32b
+packet // c33
+Logout // c34
+{ // c35
+repeat i64 Tail
+    // c38
+, // c39
+Logon , // c41
+repeat
+    // c42
+i16 // c43
+OrderId , // c45
+char[] // c46
+venue // c47
+, uint64
+    // c49
+x // c50a
+  // c50b
+,
+    // c51
+repeat // c52
+i16 // c53
+count , u8 // c56
+Flags
+    // c57
+, match Flags
+    // c60
+as
+    // c61
+Body // c62a
+  // c62b
+{ 25
+    // c64
+: Logon
+    // c66
+, // c67a
+  // c67b
+} // c68
+, // c69a
+  // c69b
+u16 Qty @calculatedFrom(
+    // c72
+""CRC32""
+    // c73
+) , // c75a
+  // c75b
 }
-
-options {
-}
-
-MetaData metadata {
-    char[4294967296] i8i8,
-    float rootA,
-    i64 packetx,
-    i8 roots `crlf
-        line`,
-    tag i64_,
-    uint8 Pad `" ++ [233]%N ++ runes_of_ascii "`,
-}
-
-root packet Header {
-    u64 options1 `two words`,
-    @calculatedFrom(""a\\"")
-    // " ++ [128512]%N ++ runes_of_ascii " emoji
-    i32 x_y_z @calculatedFrom(""a\""b"") `tab	here`,
-    match A as len {
-        [""CRC32"", ""it's""] : Z9_,
-        ""a	b"" : o,
-    },
-    match asx as pack {
-        0 : x_y_z,
-    },
-    char[] i64_ `{ , }`,
-}
-
-MetaData stringy {
-    // trailing space 
-    lengthOf o,
-    string u8x,
-    f32 string_ `doc`,
-}")).
+    // c76
+")).
 Eval vm_compute in ("<<<M1370>>>" ++ check (runes_of_ascii "
 options	{FixedStringPadFromLeft
 
@@ -365,7 +340,7 @@ Fill
 u32 venue @calculatedFrom(	""CRC32"" )
 	,}
 ")).
-Eval vm_compute in ("<<<M1793>>>" ++ check (runes_of_ascii "
+Eval vm_compute in ("<<<M1795>>>" ++ check (runes_of_ascii "
 
   // trailing space 
 	options { f32a 
@@ -441,160 +416,163 @@ u  , @tag(
 )
 u8
 A , }//")).
-Eval vm_compute in ("<<<M1902>>>" ++ check (runes_of_ascii "packet charz {
-    //	t
-    repeat i64_,
-    trueish {
-        repeat _x,
-        repeatCount,
-        repeat u16 matchKey `
-                `,
-        // " ++ [128512]%N ++ runes_of_ascii " emoji
-        // a // b
-        matchKey @calculatedFrom(""a\""b"") `it's`,
-    },
-    @tag(007)
-    @calculatedFrom(""a\\"")
-    @tag(3)
-    f32 f32a @lengthOf(asx) `crlf
-        line`,
-    repeat i8 string_,
-    @lengthOf(Logon)
-    @lengthOf(x_y_z)
-    @lengthOf(zchar)
-    repeat char[65535] Foo `" ++ [233]%N ++ runes_of_ascii "`,
-    @calculatedFrom(""abc"")
-    trueish @lengthOf(A),
-    char[0] float,
-    Packet @calculatedFrom(""a	b""),
-}
-
-MetaData Pad {
-    char[00] leftPad,
-    u8 rootA `
-        `,
-    //
+Eval vm_compute in ("<<<M4>>>" ++ check (runes_of_ascii "packet
     // " ++ [128512]%N ++ runes_of_ascii " emoji
-    int32 a1 `say ""hi""`,
-    Z9_ float,//x
-    i32 Pad,
-}")).
-Eval vm_compute in ("<<<M154>>>" ++ check (runes_of_ascii "packet BodyLength
-    // a // b
-    {@rightPad (
-'\x00' )
-u8x/// triple
-,  @tag(  007
-) @calculatedFrom( ""packet""	) repeat  uint8x x_y_z, }
-    MetaData A {
-    // packet A { u8 x, }
-    Z9_ // a // b
-f32a ,
-    zchar[ 255// a // b
-]
-    msg_type`say ""hi""` ,char[ 1	]Logon  `tab	here` ,//
-}
-packet uint8x {  @calculatedFrom(
-""" ++ [28040; 24687]%N ++ runes_of_ascii """ )@tag(// `tick` ""quote"" 'q'
-65535)	u32 int
-@lengthOf( u8x )
-`say ""hi""`
-,	@leftPad ( ' ') stringy //
-{
-    string_ A ,
-    char[ 4294967296
-] i8i8 `" ++ [233]%N ++ runes_of_ascii "`	, char[]  Logon
-,
-string
-x_y_z@lengthOf(	Packet ),
-} , zchar[	4294967296 ]
-int	`{ , }` , }
+    u128
+{ repeat char[
 // trailing space 
-// " ++ [27880; 37322]%N ++ runes_of_ascii "
-packet u8x
-    { }
-// a // b
+// packet A { u8 x, }
+65535 ] float ,
+}
+options  { f32a
+= char[] ; } packet// trailing space 
+_x { @rightPad ('0' ) // packet A { u8 x, }
+@lengthOf(i8i8) @lengthOf(lengthOf
+)  repeat	Z9_//x
+`crlf
+line`, string_ {
+// `tick` ""quote"" 'q'
+// c
+zchar[7
+]x_y_z , Header x
+`line1
+line2` ,
+    }, //	t
+@leftPad ( )
+    match float
+as	x_y_z
+{ """ ++ [28040; 24687]%N ++ runes_of_ascii """ : metadata, 007 :
+    A,00 : falsey
+    , 0123456789  : Foo // trailing space 
+,0123456789
+:
+    zchar
+, } ,@calculatedFrom( ""1"" )
+@tag(
+/// triple
+/// triple
+0	) char[
+00 ] options1	, } packet Pad{
+u16
+body
+@lengthOf( stringy // c
+), } options { BodyLength ='0'msg_type =""a\""b"" ; }
+
 ")).
-Eval vm_compute in ("<<<M1239>>>" ++ check (runes_of_ascii "// top
-options // c0
-{ // c1a
-  // c1b
-zchar // c2
-= // c3a
-  // c3b
-true // c4
-; Pad // c6a
-  // c6b
-=
-    // c7
-char[ 00 // c9a
-  // c9b
-]
-    // c10
-a1 = // c12a
-  // c12b
-uint32 // c13a
-  // c13b
-BodyLength = true // c16a
-  // c16b
-;
-    // c17
-} root // c19
-packet // c20
-T // c21a
-  // c21b
-{
-    // c22
-@lengthOf( // c23a
-  // c23b
-repeatCount ) @tag( // c26a
-  // c26b
-1
-    // c27
-) // c28a
-  // c28b
-@calculatedFrom( // c29
-""a	b"" // c30a
-  // c30b
-) // c31a
-  // c31b
-string // c32
-stringy @calculatedFrom( ""\n"" ) // c36
-`u8 x,` // c37a
-  // c37b
-, // c38
-} // c39
-")).
-Eval vm_compute in ("<<<M1758>>>" ++ check (runes_of_ascii "options {
-    leftPad = 0;
+Eval vm_compute in ("<<<M87>>>" ++ check (runes_of_ascii "root packet matchKey{ match	Foo as Z9_ {// c
+[ ""x y"" , ""1"" ,
+    007
+, 7 ]: pack,
+""`tick`"" :
+u128 ,""a	b"" :msg_type,[
+//
+//
+00 ,	65535
+] : a1, ""it's"" :Foo
+    , // " ++ [128512]%N ++ runes_of_ascii " emoji
+[ //x
+""""
+] : u, } ,
+} packet calculatedFrom // c
+{msg_type {
+    T @calculatedFrom( ""\n"" ) ,float64 i8i8, As`
+`, u32 rootA @lengthOf(
+// c
+// `tick` ""quote"" 'q'
+float
+) ,}
+, }
+    packet
+    // " ++ [27880; 37322]%N ++ runes_of_ascii "
+    x_y_z
+{@tag( //x
+0 ) i64_
+    // " ++ [27880; 37322]%N ++ runes_of_ascii "
+    @lengthOf(
     //
-    Logon = char// `tick` ""quote"" 'q'
-    i64_ = '\x00';
-}
-
-options {
-    crc = i32;
-    matchKey = 255
-    leftPad = ' ';
-    metadata = 42;
-    packetx = 10
-}
-
-root packet A {
-    @calculatedFrom(""x y"")
-    /// triple
-    zchar[00] f32a,
-    @tag(255)
-    zchar[0123456789] a1 @lengthOf(As) `" ++ [28040; 24687; 31867; 22411]%N ++ runes_of_ascii "`,
-    int16 body,// `tick` ""quote"" 'q'
-    uint64 x @calculatedFrom(""1"") `line1
-        line2`,
-    @lengthOf(Logon)
-    char[0] float @calculatedFrom(""abc""),
-}
-
-MetaData u128 {
+    MetaDataX
+) ,	}packet A { @calculatedFrom( ""a\\"" )@calculatedFrom(""abc"" ) _x
+u	`say ""hi""` ,
+    } options
+    // `tick` ""quote"" 'q'
+    { // trailing space 
+metadata = ""a\\"" ; // a // b
 }")).
+Eval vm_compute in ("<<<M1701>>>" ++ check (runes_of_ascii "options
+
+{
+
+As=	// trailing space 
+    zchar[4294967296 ]
+;
+
+}	//	t
+	packet
+
+len// packet A { u8 x, }
+{	@lengthOf( _x)	match
+    // c
+	  lengthOf as 
+  //
+// `tick` ""quote"" 'q'
+      string_ 	 // c
+    	{  [ 4294967296 ] :i64_  ""a	b"" 
+: o
+
+    ,  },leftPad @calculatedFrom( ""`tick`"") 
+        // trailing space 
+		// `tick` ""quote"" 'q'
+  ,
+    @leftPad(	'\x00'	)repeat
+    charz	/// triple
+    msg_type
+
+, repeat i8
+Foo
+, }
+
+packet  msg_type
+    { 
+
+    //x
+  // @lengthOf(
+@leftPad(
+'0' )  u64  repeatCount
+@calculatedFrom(
+    """ ++ [28040; 24687]%N ++ runes_of_ascii """) 
+,  // packet A { u8 x, }
+} ")).
+Eval vm_compute in ("<<<M40>>>" ++ check (runes_of_ascii "packet stringy
+//	t
+//
+{ repeat T// trailing space 
+{ u64 lengthOf
+`tab	here`  ,
+repeat
+_x { match calculatedFrom as Header { [""" ++ [233]%N ++ runes_of_ascii "t" ++ [233]%N ++ runes_of_ascii """
+    ] : _x  ,// @lengthOf(
+[""packet"" ] :
+MetaDataX , 255 : u128,42 :
+A
+""// no comment"" : body
+    , }
+, repeat crc Foo, charz
+    ,
+}	,zchar[ 1
+    ]i8i8@calculatedFrom( ""x y"" ),  uint8x
+    // " ++ [27880; 37322]%N ++ runes_of_ascii "
+    Pad
+`line1
+line2` , } ,
+@lengthOf( u )
+char[ //x
+4294967296 ]crc, @tag(  007 //x
+)repeatCount ,
+repeat
+    //x
+    char[] Header, @rightPad ( )char[] string_ `a\` ,
+    }
+")).
 Eval vm_compute in ("<<<M291>>>" ++ check (runes_of_ascii "root
 // " ++ [27880; 37322]%N ++ runes_of_ascii "
 // @lengthOf(
@@ -620,541 +598,484 @@ zchar[
 ] tag ,
 i8i8 int , }
 ")).
-Eval vm_compute in ("<<<M1140>>>" ++ check (runes_of_ascii "// top
-MetaData
-    // c0
-leftPad // c1
-{
-    // c2
-chars // c3a
-  // c3b
-MetaDataX // c4
-, // c5a
-  // c5b
-} packet // c7a
-  // c7b
-repeatCount // c8
-{ char[
-    // c10
-255 // c11a
-  // c11b
-] // c12a
-  // c12b
-uint8x
-    // c13
-`" ++ [233]%N ++ runes_of_ascii "` // c14a
-  // c14b
-,
-    // c15
-} // c16a
-  // c16b
-MetaData // c17a
-  // c17b
-pack // c18
-{ // c19a
-  // c19b
-As // c20a
-  // c20b
-Foo
-    // c21
-,
-    // c22
-} // c23a
-  // c23b
-")).
-Eval vm_compute in ("<<<M1486>>>" ++ check (runes_of_ascii "packet crc {
-    match trueish as len {
-        42 : uint8x,
-        // " ++ [128512]%N ++ runes_of_ascii " emoji
-        ""1"" : asx,
-        3 : body,
-        [""1"", 0123456789] : u,
-        ""packet"" : o,
-    },
-}
+Eval vm_compute in ("<<<M1551>>>" ++ check (runes_of_ascii "
 
-MetaData tag {
-    string o `line1
-        line2`,
-    char[] Header `{ , }`,
-    uint8x Z9_,
-}
-
-MetaData tag {
-    i8 len,
-}
-
-options {
-    // `tick` ""quote"" 'q'
-    /// triple
-    x = 10;
-}")).
-Eval vm_compute in ("<<<M30>>>" ++ check (runes_of_ascii "packet
-repeatCount
-    {@calculatedFrom(	""abc"" ) zchar[
-    // @lengthOf(
-    0
-] // `tick` ""quote"" 'q'
-MetaDataX  `
-`	, string_
-@calculatedFrom( ""1""
-    ) ,	match string_
-    as msg_type{ [// a // b
-65535	,// a // b
-""a	b""
-    , 7
-    ,	255 ]:
-matchKey , 10 :
-    options1 , 3 :Logon
-    , } ,
-    // " ++ [27880; 37322]%N ++ runes_of_ascii "
-    packetx `a\` ,}
-")).
-Eval vm_compute in ("<<<M81>>>" ++ check (runes_of_ascii "root packet o {
-} MetaData uint8x
-    { int64 rootA  ,}
-    MetaData
-As{i32 // packet A { u8 x, }
-chars,	}packet Z9_// trailing space 
-{
-@leftPad( )char[]	x_y_z,} packet tag {	@leftPad(
-// " ++ [128512]%N ++ runes_of_ascii " emoji
-// " ++ [27880; 37322]%N ++ runes_of_ascii "
-' '
-    )
-zchar[ 0 // `tick` ""quote"" 'q'
-] rootA @calculatedFrom(
-    ""a\\"" )
-    `tab	here`
-,}")).
-Eval vm_compute in ("<<<M1322>>>" ++ check (runes_of_ascii "packet
-
-    P1
-    { u8
-
-    a 
-,
-} packet
-
-P2  { 
-P1
-	,
-    }  packet	P3 {	P2  ,
-
-P1	,}
-	packet  P4
+  packet  As
 
 { 
-repeat  P3
-	,
+@leftPad() 
+char[
+0	]Logon
+,char[
+    0
 
-P2,
+]
+	Z9_
+@calculatedFrom(
+	""abc""
+        // c
+    )
+,@tag(
+4294967296
+) i64
+    matchKey @calculatedFrom(
+""// no comment""//
+      )
 
-}root
-
-    packet
-    P5 {
-P4,
-
-    P3
-
+    `two words` 
 ,
 
-    P1 , u8	K
-    ,match
-    K as Body {
-	4:P4 ,
-3
+i16
+    A
+,}  // " ++ [27880; 37322]%N ++ runes_of_ascii "
 
-: P3 ,
-	2 : P2 , 1
-: P1	,
-}	,  }")).
-Eval vm_compute in ("<<<M1313>>>" ++ check (runes_of_ascii "options	{ FixedStringPadChar
-=
+  packet
 
-'0';  }packet
-Q
-{ zchar[4  ]
+T
+	{ zchar[3 ] 
+tag	// packet A { u8 x, }
+  @lengthOf(
+chars )  , }packet  // " ++ [128512]%N ++ runes_of_ascii " emoji
+BodyLength
+{
+    calculatedFrom
+    @lengthOf( body
+)
+	`
+`	,} // a // b
+")).
+Eval vm_compute in ("<<<M1800>>>" ++ check (runes_of_ascii "// top
+root packet _x {
+    match Foo as Z9_ {
+        // c8
+        ""a	b"" : Pad,
+        // c12
+    },// c14
+    repeat x `line1
+    line2`,// c18
+    @rightPad(' ')
+    // c22
+    @calculatedFrom(""a\\"")
+    // c25a
+    // c25b
+    metadata MetaDataX,
+    @tag(0)
+    // c31
+    Logon int ``,
+    // c35
+}// c36
 
-z
-	, @rightPad  ('\x00'  )
-
-    char[ 
-3
-]
-n , char[
-    5 ]  d,
-}
-
+options {
+    // c38
+    T = '\x00'
+}// c42a
+// c42b")).
+Eval vm_compute in ("<<<M285>>>" ++ check (runes_of_ascii "packet zchar { @calculatedFrom(
+    ""packet"" )
+    @lengthOf( body ) @lengthOf(A )
+    repeat /// triple
+u128
+    { f32a
+chars `` , repeat x_y_z `tab	here`	, // c
+} , // " ++ [27880; 37322]%N ++ runes_of_ascii "
+repeat
+Logon {// " ++ [27880; 37322]%N ++ runes_of_ascii "
+u@calculatedFrom( // `tick` ""quote"" 'q'
+""// no comment"") //
+`two words` , char
+    u8x , uint32  uint8x  , } , int8
+    asx ``,}
+")).
+Eval vm_compute in ("<<<M232>>>" ++ check (runes_of_ascii "options {  A = i16
+;
+    }
+    /// triple
     root
 packet
-R
-
-{
-
-    Q 
-, zchar[8 
-]top
-
-    ,	repeat zchar[	2
-]
-	zs
-
-    , 
-}")).
-Eval vm_compute in ("<<<M1768>>>" ++ check (runes_of_ascii "
-packet
-
-    repeatCount{  trueish ,  }packet  uint8x
-    { 	 /// triple
-    match
-u8x 
-as 
-calculatedFrom  {
-    [
-4294967296
-]
-
-:len
-
-, [""" ++ [128512]%N ++ runes_of_ascii """ 
-,""" ++ [233]%N ++ runes_of_ascii "t" ++ [233]%N ++ runes_of_ascii """
-,	255
-,//
-
-  1 ] : falsey,
-    }
-
-    ,
-	}
-")).
-Eval vm_compute in ("<<<M1420>>>" ++ check (runes_of_ascii "// top
-root
-        // c0
-
-packet  // c1
-P  // c2a
-	// c2b
-  {	// c3
-    	char 
-	    // c4
-
-c 	 // c5a
-// c5b
-
-,// c6a
-	// c6b
-u8  
-  // c7
-  x // c8
-,	// c9
-	}	// c10
-")).
-Eval vm_compute in ("<<<M145>>>" ++ check (runes_of_ascii "MetaData //x
+    rootA{
+    @tag( 7)int16 pack,Logon @calculatedFrom( ""a\""b"" ) `{ , }`
+    , @rightPad ( '\x00' )
+//
+//
+char[
+7
+    // `tick` ""quote"" 'q'
+    ]options1
+`tab	here`,@calculatedFrom(
+""" ++ [233]%N ++ runes_of_ascii "t" ++ [233]%N ++ runes_of_ascii """ )int @lengthOf(
 Packet
-/// triple
-// " ++ [27880; 37322]%N ++ runes_of_ascii "
-{	u
-/// triple
-// c
-lengthOf `say ""hi""`
-    , } MetaData metadata {
-    crc chars `crlf
-line` , asx f32a /// triple
-,
+) `crlf
+line`, }
+")).
+Eval vm_compute in ("<<<M1836>>>" ++ check (runes_of_ascii "packet Sub	{u8
+a  ,
+
+    @calculatedFrom(""CRC16""
+
+)
+	i32 SubSum , 
+}
+root
+	packet
+Frame 
+{ u16	MsgType
+
+    , u16 
+BodyLen @lengthOf( Body
+
+    )
+    ,Sub
+
+Body  ,string
+note ,
+@calculatedFrom( ""CRC16"" )
+
+    i32  Checksum
+
+    , u8
+tail ,
 }
 
 ")).
-Eval vm_compute in ("<<<M511>>>" ++ check (runes_of_ascii "packet uint8x
-{ match pack
-    as msg_type	{
-    0123456789 :	float
-}
-,
-} packet //	t
-a1
-    { } options {packetx
-    = '\x00'	; u128 u128= ""a	b""  ; }
-")).
-Eval vm_compute in ("<<<M486>>>" ++ check (runes_of_ascii "packet uint8x
-{ match pack
-    as msg_type	{
-    0123456789 :	float
-}
-,
-} packet //	t
-a1
-    { } options { {packetx
-    = '\x00'	; u128= ""a	b""  ; }
-")).
-Eval vm_compute in ("<<<M407>>>" ++ check (runes_of_ascii "packet uint8x
-{ pack match
-    as msg_type	{
-    0123456789 :	float
-}
-,
-} packet //	t
-a1
-    { } options {packetx
-    = '\x00'	; u128= ""a	b""  ; }
-")).
-Eval vm_compute in ("<<<M1660>>>" ++ check (runes_of_ascii "
-
-  MetaData  leftPad {	chars	MetaDataX ,
-	} 	 // c
-	packet repeatCount
-    {
-	char[ 
-255
-    ]
-
-    uint8x
-`" ++ [233]%N ++ runes_of_ascii "`,
-
-}
-MetaData 
-pack
-{As 
-Foo	,
-
-}
-")).
-Eval vm_compute in ("<<<M652>>>" ++ check (runes_of_ascii "// @lengthOf(
-packet i8i8 { u128 o , }
-options { MetaDataX = true;
-    BodyLength =""packet"" x_y_z= 007
-crc crc //x
-= ""abc"" ;
-    msg_type =
-i16 }")).
-Eval vm_compute in ("<<<M551>>>" ++ check (runes_of_ascii "packet uint8x
-{ match pack
-    as " ++ [21517; 23383]%N ++ runes_of_ascii "	{
-    0123456789 :	float
-}
-,
-} packet //	t
-a1
-    { } options {packetx
-    = '\x00'	; u128= ""a	b""  ; }
-")).
-Eval vm_compute in ("<<<M663>>>" ++ check (runes_of_ascii "// @lengthOf(
-packet i8i8 { u128 o , }
-options { MetaDataX = true;
-    BodyLength =""packet"" x_y_z= 007
-crc //x
-= ""abc"" ;
-    msg_type =
-i16 ")).
-Eval vm_compute in ("<<<M697>>>" ++ check (runes_of_ascii "// @lengthOf(
-packet i8i8 { u128 o , }
-, { MetaDataX = true;
-    BodyLength =""packet"" x_y_z= 007
-crc //x
-= ""abc"" ;
-    msg_type =
-i16 }")).
-Eval vm_compute in ("<<<M1414>>>" ++ check (runes_of_ascii "packet A
-{
-
-match
-k
-
-as
-n	{  [ ""a""
-
-,
-
-""bb"" , 007 , ""d""
-
-    ,
-""e"",  66
-
-, 
-""g""
-	, ""h""
-    ,9
-	,
-
-""j""]
-    : B,
-
-2
-	:  C 
-},	} ")).
-Eval vm_compute in ("<<<M1942>>>" ++ check (runes_of_ascii "packet A 
-{
-match k
-as
-
-n
-    {
-	[  ""a"",
-    ""bb""
-	, 
-007	, ""d""
-
-, 
-""e"",66
-
-,""g""	,  ""h""
-
-,
-	9 ,	""j""
-	]	:B	2
-
-: 
-C }
-
-,
-}")).
-Eval vm_compute in ("<<<M1153>>>" ++ check (runes_of_ascii "MetaData leftPad { chars MetaDataX , // c
-} packet repeatCount { char[ 255 ] uint8x `" ++ [233]%N ++ runes_of_ascii "` , } MetaData pack { As Foo , }")).
-Eval vm_compute in ("<<<M1185>>>" ++ check (runes_of_ascii "MetaData leftPad { chars MetaDataX , } packet repeatCount { char[ 255 ] uint8x `" ++ [233]%N ++ runes_of_ascii "` , } MetaData pack { As Foo // c
-, }")).
-Eval vm_compute in ("<<<M1882>>>" ++ check (runes_of_ascii "packet
-    A 
-{ match
-
-    k  as  n 
-{
-	[1,	22
-, ""c c"" ,4,
-    5  ]  :
-
-    B
-
-    ,
-2
-
-    :	C }
-, }
-
-")).
-Eval vm_compute in ("<<<M955>>>" ++ check (runes_of_ascii "packet A {
-    u16 len @lengthOf(body) `
-x`,
-    u32 crc @calculatedFrom(""CRC32"") `
-x`,
-    string body,
-}")).
-Eval vm_compute in ("<<<M920>>>" ++ check (runes_of_ascii "packet A {
-    Inner {
-        u8 x `a
-b`,
-        Deep {
-            u8 y `a
-b`,
-        },
+Eval vm_compute in ("<<<M1933>>>" ++ check (runes_of_ascii "root packet string_ {
+    @leftPad(' ')
+    chars {
+        repeat zchar[0] tag,
+        string falsey,// " ++ [128512]%N ++ runes_of_ascii " emoji
+        repeat char[007] body `two words`,
     },
+    @calculatedFrom(""// no comment"")
+    Foo T,// " ++ [128512]%N ++ runes_of_ascii " emoji
 }")).
-Eval vm_compute in ("<<<M932>>>" ++ check (runes_of_ascii "packet A {
-    Inner {
-        u8 x `
-`,
-        Deep {
-            u8 y `
-`,
-        },
-    },
-}")).
-Eval vm_compute in ("<<<M863>>>" ++ check (runes_of_ascii "packet A {
-  match k as n {
-    [""a"", ""bb"", 007, ""d"", ""e"", 66, ""g"", ""h""] : B
-    2 : C
-  },
-}")).
-Eval vm_compute in ("<<<M388>>>" ++ check (runes_of_ascii "root packet SimpleMessage {
-    uint16 MsgType `" ++ [28040; 24687; 31867; 22411]%N ++ runes_of_ascii "`,
-    string JsonBody `Json" ++ [23383; 31526; 20018; 28040; 24687; 20307]%N ++ runes_of_ascii "`,
-}")).
-Eval vm_compute in ("<<<M859>>>" ++ check (runes_of_ascii "packet A {
-  match k as n {
-    [""a"", 22, ""c c"", 4, ""e"", 66, ""g"", 8] : B
-    2 : C
-  },
-}")).
-Eval vm_compute in ("<<<M846>>>" ++ check (runes_of_ascii "packet A {
-  match k as n {
-    [""a"", 22, ""c c"", 4, ""e"", 66, ""g""] : B
-    2 : C
-  },
-}")).
-Eval vm_compute in ("<<<M1860>>>" ++ check (runes_of_ascii "packet A {
+Eval vm_compute in ("<<<M26>>>" ++ check (runes_of_ascii "root packet body { repeat // c
+i8i8
+`it's`
+,}
+packet chars
+{@rightPad
+    (  '\x00' )
+    // `tick` ""quote"" 'q'
+    leftPad {
+    char[ 10
+]
+    asx `" ++ [233]%N ++ runes_of_ascii "`, }
+    // trailing space 
+    ,
+}
+")).
+Eval vm_compute in ("<<<M1454>>>" ++ check (runes_of_ascii "packet A {
     match k as n {
-        [""a"", ""bb"", 007] : B,
+        [
+            ""a"", ""bb"", 007, ""d"", ""e"",
+            66, ""g"", ""h"", 9, ""j"",
+            ""k"", 12
+        ] : B,
         2 : C,
     },
 }")).
-Eval vm_compute in ("<<<M840>>>" ++ check (runes_of_ascii "packet A {
-  match k as n {
-    [1, 22, 007, 4, 5, 66, 7] : B
-    2 : C
-  },
-}")).
-Eval vm_compute in ("<<<M811>>>" ++ check (runes_of_ascii "packet A {
-  match k as n {
-    [""a"", ""bb"", 007, ""d""] : B
-    2 : C
-  },
-}")).
-Eval vm_compute in ("<<<M877>>>" ++ check (runes_of_ascii "packet A { Inner { match k as n { [1,22,007,4,5,66,7,8,9] : B, }, }, }")).
-Eval vm_compute in ("<<<M1630>>>" ++ check (runes_of_ascii "root packet P {
-    u16 a,
-    u32 Sum @calculatedFrom(""CRC32""),
-}")).
-Eval vm_compute in ("<<<M261>>>" ++ check (runes_of_ascii "options{ asx= ""1"" //	t
-Pad =  0 stringy =
-    '\x00'
-    ; }")).
-Eval vm_compute in ("<<<M1097>>>" ++ check (runes_of_ascii "packet A {
+Eval vm_compute in ("<<<M491>>>" ++ check (runes_of_ascii "packet uint8x
+{ match pack
+    as msg_type	{
+    0123456789 :	float
+}
+,
+} packet //	t
+a1
+    { } options {packetx packetx
+    = '\x00'	; u128= ""a	b""  ; }
+")).
+Eval vm_compute in ("<<<M413>>>" ++ check (runes_of_ascii "packet uint8x
+{ match float32
+    as msg_type	{
+    0123456789 :	float
+}
+,
+} packet //	t
+a1
+    { } options {packetx
+    = '\x00'	; u128= ""a	b""  ; }
+")).
+Eval vm_compute in ("<<<M548>>>" ++ check (runes_of_ascii "packet uint8x
+{ match pack
+    as msg_type	{
+    0123456789 :	float
+}
+,
+} packet //	t
+a1
+    { } options {packetx
+    ''= '\x00'	; u128= ""a	b""  ; }
+")).
+Eval vm_compute in ("<<<M452>>>" ++ check (runes_of_ascii "packet uint8x
+{ match pack
+    as msg_type	{
+    0123456789 :	float
+}
+}
+, packet //	t
+a1
+    { } options {packetx
+    = '\x00'	; u128= ""a	b""  ; }
+")).
+Eval vm_compute in ("<<<M485>>>" ++ check (runes_of_ascii "packet uint8x
+{ match pack
+    as msg_type	{
+    0123456789 :	float
+}
+,
+} packet //	t
+a1
+    { } options packetx
+    = '\x00'	; u128= ""a	b""  ; }
+")).
+Eval vm_compute in ("<<<M1508>>>" ++ check (runes_of_ascii "packet A {
     match k as n {
-        1 : B,// c
+        [
+            ""a"", 22, ""c c"", 4, ""e"",
+            66, ""g"", 8, ""i"", 10
+        ] : B,
+        2 : C,
     },
 }")).
-Eval vm_compute in ("<<<M1200>>>" ++ check (runes_of_ascii "packet
-// c
-body { i32 f32a `{ , }` , } options { }")).
-Eval vm_compute in ("<<<M1719>>>" ++ check (runes_of_ascii "root packet A {
-    u8 x `a
-        b
-      c`,
-}")).
-Eval vm_compute in ("<<<M1417>>>" ++ check (runes_of_ascii "root packet A {
-    u8 x `tab
-        	x`,
-}")).
-Eval vm_compute in ("<<<M1439>>>" ++ check (runes_of_ascii "root packet P {
-    char c,
-    u8 x,
-}")).
-Eval vm_compute in ("<<<M946>>>" ++ check (runes_of_ascii "root packet A {
-    u8 x `a
+Eval vm_compute in ("<<<M1748>>>" ++ check (runes_of_ascii "  packet B {
+u8
+	a , }
 
-b`,
-}")).
-Eval vm_compute in ("<<<M1578>>>" ++ check (runes_of_ascii "packet A {
-    // a
-    u8 x,
-}")).
-Eval vm_compute in ("<<<M941>>>" ++ check (runes_of_ascii "packet A {
-    u8 x `a
+    root  packet P
+{
+    u8
+K
 
-b`,
+,
+u64 L
+
+    @lengthOf(
+Body) 
+,  match K as
+
+    Body 
+{  1 
+:B
+,
+    }	,
+    } ")).
+Eval vm_compute in ("<<<M1523>>>" ++ check (runes_of_ascii "packet A {
+    match k as n {
+        [
+            1, 22, ""c c"", 4, 5,
+            ""f"", 7, 8, ""i"", 10
+        ] : B,
+        2 : C,
+    },
 }")).
-Eval vm_compute in ("<<<M1899>>>" ++ check (runes_of_ascii "MetaData tag {
-    // c
-}")).
-Eval vm_compute in ("<<<M1107>>>" ++ check (runes_of_ascii "MetaData tag // c
-{ }")).
-Eval vm_compute in ("<<<M1130>>>" ++ check (runes_of_ascii "MetaData // c
-u { }")).
-Eval vm_compute in ("<<<M1021>>>" ++ check (runes_of_ascii "packet A {
+Eval vm_compute in ("<<<M659>>>" ++ check (runes_of_ascii "// @lengthOf(
+packet i8i8 { u128 o , }
+options { MetaDataX = true;
+    " ++ [21517; 23383]%N ++ runes_of_ascii " =""packet"" x_y_z= 007
+crc //x
+= ""abc"" ;
+    msg_type =
+i16 }")).
+Eval vm_compute in ("<<<M509>>>" ++ check (runes_of_ascii "packet uint8x
+{ match pack
+    as msg_type	{
+    0123456789 :	float
 }
-// c" ++ [8239]%N)).
-Eval vm_compute in ("<<<M1004>>>" ++ check (runes_of_ascii "packet A {
-}// c" ++ [8202]%N)).
-Eval vm_compute in ("<<<M762>>>" ++ check (runes_of_ascii "w|lL|]kVFeknSP9")).
-Eval vm_compute in ("<<<M399>>>" ++ check (runes_of_ascii "packet")).
-Eval vm_compute in ("<<<M736>>>" ++ check (runes_of_ascii " " ++ [12]%N ++ runes_of_ascii " ")).
+,
+} packet //	t
+a1
+    { } options {packetx
+    = '\x00'")).
+Eval vm_compute in ("<<<M173>>>" ++ check (runes_of_ascii "
+options
+    { zchar
+    = 10 ; matchKey = char[ /// triple
+1
+    ]
+u	= ""a\""b"" ;
+    x_y_z =
+    42 ; } MetaData Logon{ }")).
+Eval vm_compute in ("<<<M1159>>>" ++ check (runes_of_ascii "MetaData leftPad { chars MetaDataX , } packet repeatCount // c
+{ char[ 255 ] uint8x `" ++ [233]%N ++ runes_of_ascii "` , } MetaData pack { As Foo , }")).
+Eval vm_compute in ("<<<M1838>>>" ++ check (runes_of_ascii "packet A {
+    u16 len @lengthOf(body) `a
+    b`,
+    u32 crc @calculatedFrom(""CRC32"") `a
+    b`,
+    string body,
+}")).
+Eval vm_compute in ("<<<M925>>>" ++ check (runes_of_ascii "packet A {
+    u16 len @lengthOf(body) `a
+b`,
+    u32 crc @calculatedFrom(""CRC32"") `a
+b`,
+    string body,
+}")).
+Eval vm_compute in ("<<<M1473>>>" ++ check (runes_of_ascii "
+packet
+FooBar{ 
+u8
+a ,}
+	packet
+
+foo_bar
+    { 
+u16
+
+b
+
+,}
+root
+
+packet  R { FooBar
+
+, foo_bar  ,  }
+")).
+Eval vm_compute in ("<<<M884>>>" ++ check (runes_of_ascii "packet A {
+  match k as n {
+    [""a"", 22, ""c c"", 4, ""e"", 66, ""g"", 8, ""i"", 10] : B,
+    2 : C
+  },
+}")).
+Eval vm_compute in ("<<<M1740>>>" ++ check (runes_of_ascii "packet B {
+    u8 a,
+    string s,
+}
+
+root packet P {
+    u16 L @lengthOf(B),
+    B,
+    u8 t,
+}")).
+Eval vm_compute in ("<<<M717>>>" ++ check (runes_of_ascii "// @lengthOf(
+packet i8i8 { u128 o , }
+options { MetaDataX = true;
+    BodyLength =""packet"" ")).
+Eval vm_compute in ("<<<M640>>>" ++ check (runes_of_ascii "
+packet
+    asx {match u128 as lengthOf
+{
+//	t
+// `tick` ""quote"" 'q'
+$255 : x ,
+    } ,	}")).
+Eval vm_compute in ("<<<M602>>>" ++ check (runes_of_ascii "
+packet
+    asx {match u128 as lengthOf
+{
+//	t
+// `tick` ""quote"" 'q'
+255 :  ,
+    } ,	}")).
+Eval vm_compute in ("<<<M865>>>" ++ check (runes_of_ascii "packet A {
+  match k as n {
+    [1, 22, 007, 4, 5, 66, 7, 8, 9] : B,
+    2 : C
+  },
+}")).
+Eval vm_compute in ("<<<M690>>>" ++ check (runes_of_ascii "// @lengthOf(
+packet i8i8 { u128 o , }
+options { MetaDataX = true;
+    BodyLength")).
+Eval vm_compute in ("<<<M1951>>>" ++ check (runes_of_ascii "  packet  A
+	{match
+	k  as n 
+{
+[ 1
+    ,
+22  ] :  B
+    2
+
+: C
+
+    }
+
+,}
+")).
+Eval vm_compute in ("<<<M804>>>" ++ check (runes_of_ascii "packet A {
+  match k as n {
+    [1, ""bb"", 007, ""d""] : B,
+    2 : C
+  },
+}")).
+Eval vm_compute in ("<<<M794>>>" ++ check (runes_of_ascii "packet A {
+  match k as n {
+    [""a"", 22, ""c c""] : B
+    2 : C
+  },
+}")).
+Eval vm_compute in ("<<<M1492>>>" ++ check (runes_of_ascii "root packet P {
+    u8 s_u8,
+    repeat u8 r_u8,
+    u16 b_len,
+}")).
+Eval vm_compute in ("<<<M954>>>" ++ check (runes_of_ascii "packet A {
+    B b `
+x`,
+    B `
+x`,
+    repeat B bs `
+x`,
+}")).
+Eval vm_compute in ("<<<M760>>>" ++ check (runes_of_ascii "MetaData @rightPad 3 i32 int32 ; int8 body ""a	b"" `" ++ [28040; 24687; 31867; 22411]%N ++ runes_of_ascii "`")).
+Eval vm_compute in ("<<<M1204>>>" ++ check (runes_of_ascii "packet body {
+// c
+i32 f32a `{ , }` , } options { }")).
+Eval vm_compute in ("<<<M251>>>" ++ check (runes_of_ascii "
+root packet
+chars
+{
+    i16 leftPad
+    , }
+")).
+Eval vm_compute in ("<<<M1584>>>" ++ check (runes_of_ascii "
+
+  root  packet A
+{
+u8
+
+    x `a
+b`
+
+,} ")).
+Eval vm_compute in ("<<<M1722>>>" ++ check (runes_of_ascii "
+MetaData
+repeatCount  {	} 
+
+    //	t
+")).
+Eval vm_compute in ("<<<M928>>>" ++ check (runes_of_ascii "root packet A {
+    u8 x `a
+b`,
+}")).
+Eval vm_compute in ("<<<M1640>>>" ++ check (runes_of_ascii "options {
+    u8x = ""packet"";
+}")).
+Eval vm_compute in ("<<<M1511>>>" ++ check (runes_of_ascii "
+
+  packet A{ }
+        // c" ++ [160]%N)).
+Eval vm_compute in ("<<<M1460>>>" ++ check (runes_of_ascii "  // c
+packet
+
+x
+{
+} ")).
+Eval vm_compute in ("<<<M1109>>>" ++ check (runes_of_ascii "MetaData tag { // c
+}")).
+Eval vm_compute in ("<<<M1135>>>" ++ check (runes_of_ascii "MetaData u {
+// c
+}")).
+Eval vm_compute in ("<<<M1032>>>" ++ check (runes_of_ascii "// c" ++ [11]%N ++ runes_of_ascii "
+packet A {
+}")).
+Eval vm_compute in ("<<<M1024>>>" ++ check (runes_of_ascii "packet A {
+}// c" ++ [8287]%N)).
+Eval vm_compute in ("<<<M1072>>>" ++ check (runes_of_ascii "
+
+  packet A {}")).
+Eval vm_compute in ("<<<M84>>>" ++ check (runes_of_ascii " // " ++ [27880; 37322]%N)).
+Eval vm_compute in ("<<<M733>>>" ++ check (runes_of_ascii "
+
+
+")).
